@@ -32,3 +32,17 @@ Proof.
   unfold run. cbn [fold_left]. change (init w_params [(0, KNative); (1, KExt)] w_ledger 2) with w_init.
   unfold step_state at 1. rewrite H1. reflexivity.
 Qed.
+
+(* a bridge call queued by the precompile (no from-msg marker) and refunded by a failed result: the REFUND address
+   gets the FX in the bank and the registered coin as ERC-20; the sender gets nothing back *)
+Definition p_ledger : ledger :=
+  [((0, 0, 0), 5000); ((0, 3, 2), 1000); ((ERC20MOD, 3, 0), 3000); ((MODULE, 0, 0), 1000000); ((MODULE, 3, 1), 100000)].
+Definition p_init : state := init nv_params [(0, KNative); (3, KCoin)] p_ledger 2.
+Definition p_ops : list op := [Observe 500; BridgeCallP 0 1 50 [(3, 60)] 2 [1] []; ObserveResult 1 false 600; ExecResult 2].
+
+Example precompile_call_refund_example :
+  let s := run p_init p_ops in
+  calls (run p_init (firstn 2 p_ops)) <> [] /\ from_msg (run p_init (firstn 2 p_ops)) = [] /\ calls s = [] /\
+  get_bal (bal s) (1, 0, 0) = 50 /\ get_bal (bal s) (1, 3, 2) = 60 /\ get_bal (bal s) (1, 3, 0) = 0 /\
+  get_bal (bal s) (0, 0, 0) = 4950 /\ get_bal (bal s) (0, 3, 2) = 940 /\ get_bal (bal s) (0, 3, 0) = 0.
+Proof. vm_compute. repeat split; discriminate. Qed.
